@@ -25,6 +25,11 @@ func c13Scenarios() []srvScenarioDef {
 		{Name: "S7 archived statistics with false negatives || plain archived statistics", Init: withWeek, Threads: [][]string{{"get:0:neg"}, {"get:0"}}},
 		{Name: "S8 two reports for one slot || sync handler", Init: stdInit, Threads: [][]string{{"rep:1:kA:100:500"}, {"rep:1:kA:100:600"}, {"sync:1"}}},
 		{Name: "S9 report || ban of its device || equipment list", Init: stdInit, Threads: [][]string{{"rep:1:kA:100:500", "rep:1:kA:101:500"}, {"auth:1:kX:1000:G1"}, {"equipment"}}},
+		{Name: "S12 recent-reports || ban of that device || report", Init: append(append([]string{}, stdInit...), "rep:1:kA:100:500"), Threads: [][]string{{"recent:kA"}, {"auth:1:kX:1000:G1"}, {"rep:1:kA:101:600"}}},
+		{Name: "S13 migration order || sync of that device || ban", Init: stdInit, Threads: [][]string{{"migr:kA:G3:G1:G3"}, {"sync:1"}, {"auth:1:kX:1000:G1"}}},
+		{Name: "S14 new server || ban of that server || server list", Init: stdInit, Threads: [][]string{{"sauth:S1:0:1:G1"}, {"sauth:S1:1:1:G1"}, {"servers"}}},
+		{Name: "S15 rotation || rotation || report", Init: append(append([]string{}, stdInit...), "now:2100"), Threads: [][]string{{"rot"}, {"rot"}, {"rep:1:kA:2100:500"}}},
+		{Name: "S16 live statistics || new device || its first report", Init: stdInit, Threads: [][]string{{"get:0"}, {"auth:3:kC:1000:G1"}, {"rep:3:kC:100:500"}}},
 		{Name: "S10 rotation || rotation-time statistics || report in second week", Init: append(append([]string{}, stdInit...), "now:2100"), Threads: [][]string{{"rot"}, {"get:2016"}, {"rep:2:kB:2100:700"}}},
 	}
 }
